@@ -578,8 +578,14 @@ func (r *multiCIDRRangeAllocator) occupyCIDRs(logger klog.Logger, node *corev1.N
 func (r *multiCIDRRangeAllocator) associatedCIDRSet(clusterCIDR *cidrset.ClusterCIDR, cidr *net.IPNet) (*cidrset.MultiCIDRSet, error) {
 	switch {
 	case netutil.IsIPv4CIDR(cidr):
+		if clusterCIDR.IPv4CIDRSet == nil {
+			return nil, fmt.Errorf("clusterCIDR %s has no IPv4 cidrSet for cidr: %v", clusterCIDR.Name, cidr)
+		}
 		return clusterCIDR.IPv4CIDRSet, nil
 	case netutil.IsIPv6CIDR(cidr):
+		if clusterCIDR.IPv6CIDRSet == nil {
+			return nil, fmt.Errorf("clusterCIDR %s has no IPv6 cidrSet for cidr: %v", clusterCIDR.Name, cidr)
+		}
 		return clusterCIDR.IPv6CIDRSet, nil
 	default:
 		return nil, fmt.Errorf("invalid cidr: %v", cidr)
